@@ -25,6 +25,7 @@ type Config struct {
 	StopSetters  int  // max number of stop-tag setters
 	DupDAG       bool
 	MinRulesNM   bool
+	BigSets      int  // one in BigSets cases uses 24-40 rules (many goroutines in the concurrent stages)
 	BadSplit     bool // un-selected N-M calls get invalid splits too (only the result clause is decided for them)
 	DupNames     bool // selected calls sometimes get a duplicated name
 }
@@ -311,6 +312,10 @@ func RunCase(k *fw.Case, cfg *Config) {
 	g.StopSetters = 0
 	if cfg.StopSetters > 0 {
 		g.StopSetters = r.Intn(cfg.StopSetters + 1)
+	}
+	if cfg.BigSets > 0 && r.Intn(cfg.BigSets) == 0 {
+		g.MinRules, g.MaxRules = 24, 40
+		k.Count("big_rule_sets", 1)
 	}
 	rs := Gen(r, g)
 	obs := NewObs()
